@@ -2360,7 +2360,45 @@ int32 matrixValidateCerts(psPool_t *pool, psX509Cert_t *subjectCerts,
     Subject certs is the leaf first chain of certs from the peer
     Issuer certs is a flat list of trusted CAs loaded by LoadKeys
  */
+static int32 validateCertsInner(psPool_t *pool, psX509Cert_t *subjectCerts,
+    psX509Cert_t *issuerCerts, char *expectedName,
+    psX509Cert_t **foundIssuer, void *hwCtx,
+    void *poolUserPtr,
+    const matrixValidateCertsOptions_t *opts);
+
+/*
+    Public entry point. The chain is always evaluated up to the trust anchors,
+    also when a certificate lower in the chain has a date, keyUsage or
+    authorityKeyId problem, so that every certificate carries its authStatus
+    (a TLS certificate callback that tolerates e.g. expiry must still learn
+    that the chain does not lead to a trusted CA). Success is only returned
+    when every presented certificate authenticated.
+ */
 int32 matrixValidateCertsExt(psPool_t *pool, psX509Cert_t *subjectCerts,
+    psX509Cert_t *issuerCerts, char *expectedName,
+    psX509Cert_t **foundIssuer, void *hwCtx,
+    void *poolUserPtr,
+    const matrixValidateCertsOptions_t *opts)
+{
+    psX509Cert_t *sc;
+    int32 rc;
+
+    rc = validateCertsInner(pool, subjectCerts, issuerCerts, expectedName,
+            foundIssuer, hwCtx, poolUserPtr, opts);
+    if (rc >= PS_SUCCESS)
+    {
+        for (sc = subjectCerts; sc != NULL; sc = sc->next)
+        {
+            if (sc->authStatus < 0)
+            {
+                return sc->authStatus;
+            }
+        }
+    }
+    return rc;
+}
+
+static int32 validateCertsInner(psPool_t *pool, psX509Cert_t *subjectCerts,
     psX509Cert_t *issuerCerts, char *expectedName,
     psX509Cert_t **foundIssuer, void *hwCtx,
     void *poolUserPtr,
@@ -2448,7 +2486,13 @@ int32 matrixValidateCertsExt(psPool_t *pool, psX509Cert_t *subjectCerts,
             if ((rc = psX509AuthenticateCert(pool, sc, ic, foundIssuer, hwCtx,
                      poolUserPtr)) < PS_SUCCESS)
             {
-                return rc;
+                /* A date/keyUsage/authorityKeyId problem is recorded in the
+                   certificate's authStatus; go on to the trust anchors. */
+                if (rc != PS_CERT_AUTH_FAIL_EXTENSION &&
+                    rc != PS_CERT_AUTH_FAIL_AUTHKEY)
+                {
+                    return rc;
+                }
             }
 
             rc = checkPathLenConstraint(ic, sc, pathLen);
@@ -2467,7 +2511,11 @@ int32 matrixValidateCertsExt(psPool_t *pool, psX509Cert_t *subjectCerts,
         if ((rc = psX509AuthenticateCert(pool, sc, ic, foundIssuer, hwCtx,
                  poolUserPtr)) < PS_SUCCESS)
         {
-            return rc;
+            if (rc != PS_CERT_AUTH_FAIL_EXTENSION &&
+                rc != PS_CERT_AUTH_FAIL_AUTHKEY)
+            {
+                return rc;
+            }
         }
 
         rc = checkPathLenConstraint(ic, sc, pathLen);
